@@ -313,9 +313,9 @@ class World:
         self.task_tag = {}
         self.tag_occ = {}
 
-        def submit(task, tag=None, block=True):
+        def submit(task, tag=None, *a, **k):
             world.task_tag[id(task)] = getattr(tag, 'name', None)
-            return real(task, tag=tag, block=block)
+            return real(task, tag, *a, **k)
         be.submit = submit
         # C10: "a submitter blocks, rather than fails or overruns, while a stage
         # is full" - the manager's stages must never refuse a task
@@ -328,9 +328,10 @@ class World:
         world = self
         inner = be.submit
 
-        def submit(task, tag=None, block=True):
+        def submit(task, tag=None, *a, **k):
+            block = k.get('block', a[0] if a else True)
             try:
-                return inner(task, tag=tag, block=block)
+                return inner(task, tag, *a, **k)
             except exc_cls as e:
                 world.violation('C10', 'submit-failed-instead-of-blocking',
                                 'the %s refused %s with %r instead of making the '
@@ -846,10 +847,9 @@ class World:
         orig = osutil.open_file_chunk_reader_from_fileobj
 
         def wrapped(fileobj, chunk_size, full_file_size, callbacks,
-                    close_callbacks=None):
-            rfc = orig(fileobj=fileobj, chunk_size=chunk_size,
-                       full_file_size=full_file_size, callbacks=callbacks,
-                       close_callbacks=close_callbacks)
+                    close_callbacks=None, *a, **k):
+            rfc = orig(fileobj, chunk_size, full_file_size, callbacks,
+                       close_callbacks, *a, **k)
             inner = fileobj
             for _ in range(6):
                 nxt = getattr(inner, '_fileobj', None)
